@@ -12,6 +12,7 @@ mod idcheck;
 mod gen_games;
 mod master;
 mod net;
+mod quake;
 mod reader;
 mod settings;
 mod valve;
@@ -33,6 +34,7 @@ fn entries() -> Vec<(&'static str, EntryFn)> {
     v.extend(settings::entries());
     v.extend(games::entries());
     v.extend(idcheck::entries());
+    v.extend(quake::entries());
     v
 }
 
